@@ -79,6 +79,9 @@ type Exec struct {
 	boundPhis  map[*ssa.Phi]Val
 	ctxPCs     []Term // path conditions of the enclosing (inlining) call sites
 	globalPinned map[*ssa.Global]bool
+	allocBound   *Clause // `opt alloc=<expr>`: byte bound for data-dependent allocations
+	topContract  *FnContract
+	topArgs      []Val
 }
 
 type ExecOpts struct {
